@@ -110,6 +110,7 @@ type Machine struct {
 	initNotes    []string
 	envVars      []*Term
 	vinfo        map[int]*varInfo
+	allocLimit   int
 	DomDecided   int
 	intrCache    map[*ssa.Function]Intrinsic
 	StubsUsed    map[string]bool
@@ -584,6 +585,7 @@ func (m *Machine) visitInstr(fr *frame, instr ssa.Instruction) continuation {
 
 	case *ssa.MakeSlice:
 		_, lsigned, _ := intInfo(instr.Len.Type())
+		m.checkAllocLimit(fr.get(instr.Len).(*Term), lsigned, 1)
 		ln := m.concretizeAlloc(fr.get(instr.Len).(*Term), lsigned, "make len")
 		_, csigned, _ := intInfo(instr.Cap.Type())
 		cp := m.concretizeAlloc(fr.get(instr.Cap).(*Term), csigned, "make cap")
